@@ -58,7 +58,7 @@ impl Property for C17 {
         ]
     }
     fn plan(&self, tier: Tier) -> Plan {
-        Plan { workers: tier.pick(4, 16), cases_per_worker: tier.pick(12_500, 312_500), max_shrink_iters: 3000 }
+        Plan { workers: tier.pick(4, 16), cases_per_worker: tier.pick(125_000, 1_500_000), max_shrink_iters: 3000 }
     }
     fn selftest(&self) -> Result<serde_json::Value, String> {
         crate::selftest::model_vs_recorded()
